@@ -1,8 +1,12 @@
 #!/bin/bash
-# usage: seedtest.sh <dir with patch.diff> <property id> [tier]   -- applies the patch to /repo, runs the check, reverts
+# usage: seedtest.sh <dir with patch.diff> <property id> [tier]   -- applies the patch to /repo, runs the check, reverts.
+# The evidence file of the property is saved and restored: evidence committed in /verif must describe the unchanged tree.
 set -u
 d=$1; pid=$2; tier=${3:-quick}
 git -C /repo diff --quiet || { echo "/repo has uncommitted changes"; exit 9; }; git -C /repo apply "$d/patch.diff" || { echo "PATCH DOES NOT APPLY"; exit 9; }
-cd /verif && ./check $pid --tier $tier | grep -v "^$" | tail -12; rc=${PIPESTATUS[0]}
-git -C /repo checkout -- . 
+cd /verif
+cp evidence/$pid.json /tmp/evidence_$pid.$$ 2>/dev/null
+./check $pid --tier $tier | grep -v "^$" | tail -12; rc=${PIPESTATUS[0]}
+git -C /repo checkout -- .
+[ -f /tmp/evidence_$pid.$$ ] && mv /tmp/evidence_$pid.$$ evidence/$pid.json
 echo "check exit=$rc"
